@@ -306,3 +306,43 @@ def float_opinion_kind(rng, fmt, n):
         t = sum(a)
         a = [round_fmt(fmt, x / t) for x in a]
     return b + [u] + a
+
+
+# ---------------------------------------------------------------- tiny-value injection (tolerance thresholds other than machine epsilon)
+TINY = {"f64": [2.0 ** -k for k in (53, 51, 45, 36, 30, 27, 20, 14, 10)],
+        "f32": [2.0 ** -k for k in (24, 22, 18, 14, 12, 10)]}
+
+
+def inject_tiny(rng, fmt, vals, t=None):
+    """vals: list of numbers summing to S (grid values). One entry becomes the tiny value t (or is raised by t when it is 0) and the largest
+    other entry is lowered by t, which is exact in `fmt` for t >= 2^-53 / 2^-24 and values < 1; the sum is preserved exactly."""
+    vals = [float(v) for v in vals]
+    if len(vals) < 2:
+        return vals
+    t = t if t is not None else rng.choice(TINY[fmt])
+    big = max(range(len(vals)), key=lambda i: vals[i])
+    cand = [i for i in range(len(vals)) if i != big]
+    i = rng.choice(cand)
+    old = vals[i]
+    vals[i] = t
+    vals[big] = round_fmt(fmt, vals[big] + old - t)
+    if vals[big] < 0:
+        return None
+    return vals
+
+
+def tiny_opinion(rng, fmt, w, n, where=None):
+    """w = b[n] u a[n] (grid values). Injects a tiny value into the simplex part (b,u) or into the base rate."""
+    w = [float(v) for v in w]
+    where = where or rng.choice(["a", "a", "bu"])
+    if where == "a":
+        a = inject_tiny(rng, fmt, w[n + 1:])
+        return w[:n + 1] + a if a else w
+    bu = inject_tiny(rng, fmt, w[:n + 1])
+    return bu + w[n + 1:] if bu else w
+
+
+def near_one(rng, fmt, k=None):
+    """1 - k ulps (k = 1..12 by default)"""
+    k = k or rng.randint(1, 12)
+    return step(fmt, 1.0, -k)
